@@ -41,6 +41,7 @@ CLAUSE_PROPERTY = {
     "TR_Cap": "C15",
     "TR_ModesOK": "C14",
     "TR_ModesExist": "C14",
+    "TR_WeightsIntact": "C05",
     "RS_WholeCopies": "C07",
     "RS_Count": "C06",
     "RS_LabelRange": "C14",
@@ -446,6 +447,7 @@ class Recorder:
         o = {"iter": int(st.get_current("iter")), "first": first, "beta": _R("beta", beta)}
         self._wtag = getattr(self, "_wtag", 0) + 2
         self._ztag = getattr(self, "_ztag", 0) + 2
+        self._w_handed = weights.copy()
         if first:
             o.update(ess=_R("ess", ess), essAt=_R("ess", ess), logz=self._ztag, logzAt=self._ztag, wts=self._wtag,
                      wtsAt=self._wtag, refAgrees=True, limit=_R("beta", beta), essAtLimit=_R("ess", ess))
@@ -553,8 +555,11 @@ class Recorder:
         else:
             labels = [-1] * int(getattr(ms, "K", 1))     # no fit observed in this iteration: these modes do not come from the current pool
         self._last_modes = (ms, labels)
+        w_now = np.asarray(r["weights"], dtype=float)
+        w0 = getattr(self, "_w_handed", None)
+        intact = w0 is None or (w_now.shape == w0.shape and bool(np.allclose(w_now, w0, rtol=RTOL, atol=1e-300)))
         self._emit("Train", branch=branch, fitted=bool(self._clusterer_fits > 0), K=K, modes=labels,
-                   modesOK=self._mode_info(ms), nModes=int(getattr(ms, "K", 0)))
+                   modesOK=self._mode_info(ms), nModes=int(getattr(ms, "K", 0)), wtsOut=self._wtag if intact else self._wtag + 1)
 
     def _on_resampled(self, r):
         core = r["core"]
